@@ -26,7 +26,7 @@ Tag(text, key, value, boolean) == [text |-> text, tag |-> [key |-> key, value |-
 
 -----------------------------------------------------------------------------
 (* definition variants; n makes the names unique *)
-NVariants == 14
+NVariants == 15
 DV(k, n) ==
   CASE k = 1 -> [k |-> "struct", name |-> Nm("Sa", n), ro |-> FALSE, op |-> "", opval |-> NoOp, doc |-> NoDoc, asp |-> "post",
                  fields |-> << PlainF("a", P("int32"), 0), PlainF("b", A(P("string")), 0) >>]
@@ -67,6 +67,8 @@ DV(k, n) ==
     [] k = 14 -> [k |-> "struct", name |-> Nm("Sd", n), ro |-> FALSE, op |-> "", opval |-> NoOp,
                   doc |-> BlockDoc("\n * javadoc style\n *\n * second paragraph\n "), asp |-> "post",
                   fields |-> << PlainF("q", P("uint64"), 0) >>]
+    [] k = 15 -> [k |-> "import", path |-> "dir\\sub" \o ToString(n) \o ".bop",          \* the path contains ONE backslash ...
+                  lit |-> "\"dir\\\\sub" \o ToString(n) \o ".bop\""]                     \* ... written as an escape in the literal
 
 MaxSeq == IF Tier = "thorough" THEN 3 ELSE 2
 RECURSIVE Pow(_, _)
